@@ -663,6 +663,7 @@ def deposit (so : ScriptOf) (a : Account) (amount : Int) (rate : Int) (best expi
   | none => refuse .termsFail
   | some maxV =>
   let nv := a.value + amount
+  if depositChecksMin ∧ nv < MinAccountValue then refuse .belowMin else
   if nv > maxV then refuse .aboveMax else
   match optExpiry expiryHeight best with
   | .error r => refuse r
